@@ -117,6 +117,8 @@ def run(rep: Report, tier: str) -> None:
     key_cls = prog.classes.get(key[1])
     kw = dict(key[2])
     fields = [n for n, _ in key_cls.dataclass_fields()] if key_cls else []
+    compared = set(key_cls.dataclass_compared_fields()) if key_cls else set()
+    rep.check(compared == set(want_key), ra, fi.module, key_cls.name if key_cls else "?", "all four key components take part in the generated equality / hash", f"key class compares {sorted(compared)} only (field(compare=False) removes a component from __eq__ and __hash__): fractions that differ in {sorted(set(want_key) - compared)} share one line", loc(key_cls.node) if key_cls else "")
     rep.check(set(fields) == set(want_key) and set(kw) == set(want_key), ra, fi.module, fi.qualname, "key has exactly the four components", f"key class {key_cls.name if key_cls else '?'} has fields {fields}, constructed with {sorted(kw)}; the statement's key is (year, asset, transaction type, long/short)", loc(e[5]))
     decos = " ".join(key_cls.decorator_texts()) if key_cls else ""
     own_eq = key_cls is not None and ("__eq__" in key_cls.methods or "__hash__" in key_cls.methods)
@@ -202,7 +204,7 @@ def run(rep: Report, tier: str) -> None:
     eq_ok = eqf is None or need <= {a.lstrip("_") for a in eqf}
     hash_ok = hsf is None or hsf <= {a.lstrip("_") for a in (eqf or need)}
     # direct attribute reads only: an equality routed through a helper is judged on the helper's body
-    if eqf is not None and not eq_ok:
+    if eqf is not None and not eq_ok and prog.lookup_method(ygl_cls, "__eq__") is not None:
         helpers = [n.func.attr for n in ast.walk(prog.lookup_method(ygl_cls, "__eq__").node) if isinstance(n, ast.Call) and isinstance(n.func, ast.Attribute) and isinstance(n.func.value, ast.Name) and n.func.attr in ygl_cls.methods]
         for hname in helpers:
             eqf = set(eqf) | _self_attrs(ygl_cls.methods[hname].node, ygl_cls.methods[hname].param_names[0])
